@@ -351,7 +351,10 @@ class Kernel:
                 continue
             t = self._next_time()
             if t is None or t > limit:
-                if until is not None and limit > self.now:
+                # (time passes up to the horizon even when nothing is left to
+                # happen: a system that has gone quiet is still judged
+                # against its deadlines)
+                if limit > self.now:
                     self.now = limit
                 return
             if t > self.now:
